@@ -59,6 +59,18 @@ CHECKS.update({
  "C31": dict(level="exploration", engine="l1+l2", ref="§3 C31", note=L1_NOTE + " The filter object itself is explored under L2 (shuttle).",
    technique="deterministic simulation: seeded schedules of build/probe/sibling-partition interleavings with scans that accept pushed-down dynamic filters and re-evaluate them per batch, reference-evaluator oracle; shuttle schedule search over the filter object (update/current/cache/wait_complete)",
    text="L1: joins of every type, TopK sorts and grouped aggregates planned by the real optimizer with dynamic filter pushdown forced on, over simulated scans that accept the pushed filters and evaluate current() on every batch; arrival order of build side, probe side and partitions decided by the seeded scheduler; a wrongly pruned row shows up as a row missing from the reference result. L2: concurrent update/current/with_new_children/mark_complete/wait_complete histories on the real DynamicFilterPhysicalExpr: only published values, monotone per reader, at least every completed update, remap applied, no lost completion wake-up."),
+ "C26": l1("exploration", "§3 C26",
+   "deterministic simulation of the object-store seam: seeded chunking/Pending/latency of GET bodies under seeded task schedules, byte ranges cut at seeded positions; oracle: concatenation of the ranges equals the file, every range starts at a record start; end-to-end CSV/NDJSON listing scans against the files' records",
+   "AlignedBoundaryStream for every range of a seeded partition of a generated file (empty lines, CRLF, trailing newline or not, lines beyond the 16 KiB lookahead; half of the cuts on or next to a line break) over a simulated object store that decides how GET bodies are chunked (1 byte .. whole) and when a chunk is not ready; plus repartitioned CSV/NDJSON scans through ListingTable with tiny repartition_file_min_size and 1-8 partitions."),
+ "C40": l1("exploration", "§3 C40",
+   "deterministic simulation with a simulated clock and storage: model-based histories on the real DefaultCache (TimeProvider seam) against a reference LRU+TTL map; query/rewrite/add/delete/advance/drop histories on a Parquet listing table over the simulated object store with listing, statistics and metadata caches",
+   "Histories of cache operations with the clock advanced by generated amounts around the TTL are compared operation by operation with a reference map (results, memory_used == sum of entries <= limit, len). Session-level histories rewrite, add and delete files between queries; every query planned when the cached listing cannot be valid any more (TTL expired on the simulated clock, table dropped, cache off) or is still current must answer for the current files, including answers taken from statistics."),
+ "C50": l1("exploration", "§3 C50",
+   "deterministic simulation of unbounded inputs: scripted prefix followed by an endless stream of fresh rows, seeded schedules; bounded liveness in steps (after both inputs produced 600 more batches) and safety against a reference evaluation of the prefix; planning-time rejection accepted",
+   "Query shapes over unbounded ordered inputs (filter, UNION ALL, LIMIT, bounded window, ordered GROUP BY, symmetric hash join; two blocking shapes that must be rejected) planned by the real optimizer. Everything determined by the prefix minus one batch of slack must be delivered once the inputs have gone on for 600 batches of fresh rows (keys spread over all partitions, values passing and failing the filter), everything delivered from the prefix must be correct, LIMIT must end the stream."),
+ "C53": l1("exploration", "§3 C53",
+   "deterministic simulation: counting TapExec above every node of real optimizer-built plans under seeded schedules/configurations (incl. spilling); oracle: output_rows metric == rows forwarded for every fully consumed node",
+   "The whole SQL corpus under random configurations and schedules; a transparent counting node above every operator; after complete consumption every operator all of whose partition streams reached end-of-stream must report output_rows equal to what its tap forwarded. Spill row metrics are not checked."),
 })
 
 NA = {
@@ -98,7 +110,7 @@ NA = {
  "C51": "pure string functions",
  "C52": "pure string functions",
 }
-PLANNED = ["C25","C26","C40","C50","C53"]
+PLANNED = ["C25"]
 
 def main():
     props = [json.loads(l)["id"] for l in open(os.path.join(ROOT, "properties.jsonl"))]
